@@ -17,7 +17,7 @@ RULE = ("random sample sets (SPIN/BINARY/INTEGER/DISCRETE/REAL; sample dtypes in
         "state (sorted slices and first relationally); deferred cases capture relabel/change_vartype on a concurrent.futures.Future-backed "
         "sample set before or after the result is set; as_samples cases feed one assignment table in up to 15 forms x 2 label types; "
         "non-trivial = an operation returned a non-empty sample set; distinct by case JSON")
-TRUSTED = ["model: coq/theories/Model/{Samples,SSet,ChkC14}.v (hand-written mirror of dimod/sampleset.py; aggregate is mirrored in its code shape (np.unique contract proved for the mirrored definition, argsort un-sorting, accumulation loop) and proved equal to the specification)",
+TRUSTED = ["translators/dtype_narrowing.py (fail-closed) -> Gen/Gen_Narrow.v: the candidate list of _sample_array's dtype narrowing", "model: coq/theories/Model/{Samples,SSet,Narrow,ChkC14}.v (hand-written mirror of dimod/sampleset.py; aggregate is mirrored in its code shape (np.unique contract proved for the mirrored definition, argsort un-sorting, accumulation loop) and proved equal to the specification)",
            "NumPy structured-array indexing, np.unique, np.argsort, recfunctions.stack_arrays/append_fields behave as documented",
            "float arithmetic of the implementation is exact on the generated dyadic data (not verified)"]
 ASSUMPTIONS = ["IEEE-754 arithmetic is exact on the small dyadic energies, offsets and tolerances generated",
